@@ -149,6 +149,13 @@ func c14GenScn(r *rand.Rand, small bool) c14Scn {
 		}
 		s.Lookups = append(s.Lookups, gen.ConcLookup{Client: cl, Path: m.Path, Vers: v})
 	}
+	if r.Intn(4) != 0 {
+		for i := range s.Lookups {
+			if r.Intn(3) != 0 {
+				s.Lookups[i].Yield = 1
+			}
+		}
+	}
 	s.Grow = r.Intn(4)
 	if small {
 		s.Grow = r.Intn(2)
@@ -444,6 +451,8 @@ func c14Exec(in c14In) *c14Outcome {
 			}
 		case gen.EvWriteCache:
 			evs = append(evs, wire.L(wire.I(6), wire.Int(e.Tid), headVal(e.A)))
+		case gen.EvYield:
+			evs = append(evs, wire.L(wire.I(7), wire.Int(e.Tid), wire.Int(e.Site)))
 		}
 	}
 	scen := wire.L(wire.L(chain...), wire.Int(cur0), headVal(cfg0), wire.L(cache0...), wire.L(clients...), wire.L(threads...))
@@ -501,6 +510,8 @@ func c14Report(c *hx.Ctx, in c14In, o *c14Outcome) {
 			c.Count("ev:ReadRemote")
 		case gen.EvWriteCache:
 			c.Count("ev:WriteCache")
+		case gen.EvYield:
+			c.Count(fmt.Sprintf("ev:pause-site=%d", e.Site))
 		}
 	}
 	waiters := 0
